@@ -539,7 +539,12 @@ class Walker:
                     for t in tgts:
                         for x in ast.walk(t):
                             if isinstance(x, ast.Attribute) and isinstance(x.ctx, ast.Store):
-                                keys.add(("F", self._field_alias(K, mangle(lex, x.attr))))
+                                if isinstance(x.value, ast.Name) and x.value.id == "self":
+                                    keys.add(("F", self._field_alias(K, mangle(lex, x.attr))))
+                                else:
+                                    # a store through another object: its own field of that name, not self's property of that name
+                                    keys.add(("F", mangle(lex, x.attr)))
+                                    keys.add(("F", "_" + x.attr.lstrip("_")))
                             elif isinstance(x, ast.Subscript) and isinstance(x.ctx, ast.Store):
                                 fn = _outer_attr(x.value)
                                 if fn:
@@ -673,6 +678,8 @@ class Walker:
             return ("tup", (ix, self.elem_of(lid, xs)))
         if dom[0] == "call" and dom[1] == ("g", "zip") and len(dom[2]) >= 1 and not dom[3]:
             return ("tup", tuple(self.elem_of(lid, x) for x in dom[2]))
+        if dom[0] == "comp" and dom[1] == "list" and len(dom[3]) == 1 and not dom[3][0][3] and dom[2][0] == "new":
+            return dom[2]  # a list of freshly constructed objects: its generic element is that (abstract) object
         return ("it", lid, dom)
 
     def s_While(self, n, st):
@@ -1046,6 +1053,8 @@ class Walker:
             return cont[1][idx[1]]
         if cont[0] == "unpall" and is_const(idx) and isinstance(idx[1], int):
             return ("unp", cont[1], idx[1], cont[2])
+        if cont[0] == "comp" and cont[1] == "list" and len(cont[3]) == 1 and not cont[3][0][3] and cont[2][0] == "new":
+            return cont[2]  # any element of a list of freshly constructed objects is that (abstract) object
         if idx == C(-1):
             hit = st.last.get((self.key_of(cont), strip_epochs(cont)))
             if hit is not None and hit[0] == self.epoch(st, cont):
@@ -1301,7 +1310,7 @@ class Walker:
                 if name == "pack":
                     v = ("pack", recv[1], tuple(args))
                 elif name in ("unpack", "unpack_from"):
-                    v = ("unpall", recv[1], args[0] if args else NONE)
+                    v = ("unpall", recv[1], self._unpack_source(name, recv[1], args, kwargs))
                 else:
                     v = ("call", ("m", recv, name), tuple(args), ())
                 return [(st, v)]
@@ -1339,7 +1348,7 @@ class Walker:
                 v = ("newb", "array", site, tuple(args))
                 return [(st, v)]
             if name in ("unpack", "unpack_from") and k == "ext" and fn[1] == "struct" and args and is_const(args[0]):
-                return [(st, ("unpall", args[0][1], args[1] if len(args) > 1 else NONE))]
+                return [(st, ("unpall", args[0][1], self._unpack_source(name, args[0][1], args[1:], kwargs)))]
             if name == "pack" and k == "ext" and fn[1] == "struct" and args and is_const(args[0]):
                 return [(st, ("pack", args[0][1], tuple(args[1:])))]
             if name == "list" and k == "g" and not args:
@@ -1365,6 +1374,21 @@ class Walker:
         self.emit(st, "call", node, name="<unknown>", target=None, recv=None, args=args, kwargs=kwargs, inlined=False,
                   mutates=False, result=v, fn=fn)
         return [(st, v)]
+
+    def _unpack_source(self, name, fmt, args, kwargs):
+        """the bytes a struct unpack reads: unpack(buf) reads buf; unpack_from(buf, off) reads buf[off : off + size]"""
+        if not args:
+            return NONE
+        buf = args[0]
+        off = args[1] if len(args) > 1 else (kwargs or {}).get("offset")
+        if name == "unpack_from" and off is not None and off != C(0):
+            import struct as _s
+            try:
+                size = C(_s.calcsize(fmt))
+            except Exception:
+                return ("unk", "unpack_from")
+            return ("slice", buf, off, self.mk_bin("+", off, size), NONE)
+        return buf
 
     def _func_by_any_qual(self, qual: str) -> Optional[FuncInfo]:
         if qual not in self._qual_index:
